@@ -465,6 +465,8 @@ class Gen:
             return '  return sp_succ(p, p);'
         if n == 'failure':
             return '  return sp_fail(p, p);'
+        if n == 'raise':
+            return '  out_t o = { 2, p, %d, p, p }; return o;' % s.rid(a[0])
         if n == 'eof':
             return '  return p == end ? sp_succ(p, p) : sp_fail(p, p);'
         if n == 'any':
@@ -478,7 +480,7 @@ class Gen:
         if n == 'sor':
             L = ['  u64 far = p; out_t a;']
             for x in a:
-                L.append('  a = %s(p, end); if (a.far > far) far = a.far; if (a.r != 0) { if (a.r == 1) a.far = far; return a; }' % s.fn2(x))
+                L.append('  a = %s(p, end); if (a.far > far) far = a.far; if (a.r != 0) { if (a.r == 1 || (a.r == 2 && a.id < 1000)) a.far = far; return a; }' % s.fn2(x))
             L.append('  return sp_fail(p, far);')
             return '\n'.join(L)
         if n == 'opt':
@@ -496,6 +498,8 @@ class Gen:
 def default_rid(e):
     if e.name == 'sym':
         return ival(e.args[0])
+    if e.name == 'sym2':
+        return 10 + ival(e.args[0])
     if e.name == 'named':
         return 100 + ival(e.args[0])
     return -1
